@@ -18,7 +18,7 @@ static Verdict run(const Case &c) {
     int ia = w.add_if(ca), ib = w.add_if(cb);
     Mac M = h.st_real(0);
     auto third = [&](int k) { return mac_from_u64(0x0400F0000000ULL + (uint64_t)k); };
-    auto srcsel = [&](int k) { return k == 0 ? A : mac_from_u64(0x0400CC000000ULL + (uint64_t)k); };
+    auto srcsel = [&](int k) { return k == 0 ? A : mac_from_u64(0x0400CC000000ULL + (uint64_t)k); };   // k in 0..255: A itself or a spoofed source
     // B must report these (real source A, Ethernet source, Ethernet destination B); and must not report frames for third stations
     std::set<QDesc> must;          // keyed without type
     std::set<Mac> forbidden_edst;  // third-station destinations A emitted to
@@ -57,7 +57,7 @@ static Verdict run(const Case &c) {
                 std::vector<EmitDesc> d;
                 for (size_t k = 0; k + 4 <= op.blob.size() && d.size() < (h.mtu - 34) / 14; k += 4) {
                     EmitDesc e; e.kind = op.blob[k] & 1; e.pause = op.blob[k + 1];
-                    e.src = srcsel(op.blob[k + 2] & 3); e.dst = (op.blob[k + 3] & 3) == 0 ? B : third(op.blob[k + 3] & 3);
+                    e.src = srcsel(op.blob[k + 2]); e.dst = (op.blob[k + 3] & 3) == 0 ? B : third(op.blob[k + 3] & 3);
                     d.push_back(e);
                 }
                 uint16_t seq = (uint16_t)op.arg(0); if (!seq) seq = 1;
@@ -109,6 +109,23 @@ int main(int argc, char **argv) {
         HCfg h = *hg::cfg_gen();
         Case c; h.to_case(c);
         c.cfg.push_back(0x020000000000LL | *gx::range<int64_t>(1, 0xFFFFFF));   // B's address (cfg[8])
+        if (*gx::chance(20)) {
+            // capacity family: A emits about as many frames with pairwise distinct sources towards B as one QueryResp of B holds, then B is queried
+            size_t capq = (h.mtu - 34) / 20, cape = (h.mtu - 34) / 14;
+            int64_t want = (int64_t)capq + *gx::pick({-1, 0, 0, 1, 2});
+            if (want > 250) want = 250;          // the source selector is one byte
+            int64_t sent = 0;
+            while (sent < want) {
+                Op o; o.kind = K_EMIT_A; o.a = {*hg::seq_gen()};
+                int64_t n = std::min<int64_t>(want - sent, (int64_t)std::min<size_t>(cape, 60));
+                for (int64_t i = 0; i < n; i++) { o.blob.push_back((uint8_t)((sent + i) & 1)); o.blob.push_back(0); o.blob.push_back((uint8_t)(1 + sent + i)); o.blob.push_back(0); }
+                c.ops.push_back(o);
+                sent += n;
+            }
+            Op q; q.kind = K_QUERY_B; q.a = {*hg::seq_gen()};
+            c.ops.push_back(q);
+            return c;
+        }
         int n = *gx::range<int>(1, 10);
         c.ops = *rc::gen::resize(n, rc::gen::container<std::vector<Op>>(rc::gen::exec([] {
             Op o;
@@ -119,7 +136,7 @@ int main(int argc, char **argv) {
                 for (int i = 0; i < nd; i++) {
                     o.blob.push_back((uint8_t)*gx::pick({0, 1}));
                     o.blob.push_back((uint8_t)*gx::bnd({0, 1, 255}, 0, 255, 1, 1));
-                    o.blob.push_back((uint8_t)*gx::pick({0, 0, 0, 1, 2}));
+                    o.blob.push_back((uint8_t)*gx::pick({0, 0, 0, 1, 2, 200}));
                     o.blob.push_back((uint8_t)*gx::pick({0, 0, 0, 1, 2, 3}));
                 }
             } else if (k <= 7) { o.kind = K_NOISE; o.a = {*gx::range<int64_t>(0, 2)}; }
